@@ -265,8 +265,9 @@ impl<'a, T: IteTable<'a, BddPtr<'a>> + Default> RobddBuilder<'a, T> {
             return bdd;
         }
 
+        let level_var = self.order.borrow().var_at_level(current);
         match bdd {
-            BddPtr::Reg(node) => {
+            BddPtr::Reg(node) if node.var == level_var => {
                 let smoothed_node = BddNode::new(
                     node.var,
                     self.smooth_helper(node.low, current + 1, total),
@@ -275,10 +276,11 @@ impl<'a, T: IteTable<'a, BddPtr<'a>> + Default> RobddBuilder<'a, T> {
                 self.get_or_insert(smoothed_node)
             }
             BddPtr::Compl(node) => self.smooth_helper(BddPtr::Reg(node), current, total).neg(),
-            BddPtr::PtrTrue | BddPtr::PtrFalse => {
-                let var = self.order.borrow().var_at_level(current);
+            // a constant, or a node that decides a variable further down the
+            // order: this level is skipped, so insert a don't-care node for it
+            BddPtr::Reg(_) | BddPtr::PtrTrue | BddPtr::PtrFalse => {
                 let smoothed_node = BddNode::new(
-                    var,
+                    level_var,
                     self.smooth_helper(bdd, current + 1, total),
                     self.smooth_helper(bdd, current + 1, total),
                 );
